@@ -122,6 +122,7 @@ fn find_msg(r: &[u8; 32], a: &[u8; 32], ctx: Option<&[u8]>, tries: u32, pred: im
 fn drive(ctx: &Ctx, a: &[u8; 32], msg: &[u8], sig: &[u8; 64], c: Option<&[u8]>, tag: &str, stats: &std::sync::Mutex<std::collections::BTreeMap<String, u64>>) {
     ctx.eval(1);
     let case = json!({"kind": "verify", "key": hex(a), "msg": hex(msg), "sig": hex(sig), "ctx": c.map(hex), "class": tag});
+    ctx.case(&case.to_string());
     let key = format!("{}/{}/{}/{}", hex(a), hex(msg), hex(sig), c.map(hex).unwrap_or("-".into()));
     for (name, strict, r) in real_verifiers(a, msg, sig, c) {
         let want = model_accepts(a, msg, sig, c, strict);
@@ -293,7 +294,6 @@ pub fn run(ctx: &Ctx) {
     }
     let n_acc_small: u64 = stats.lock().unwrap().iter().filter(|(k, _)| k.starts_with("accepted_class_A=small")).map(|(_, v)| *v).sum();
     ctx.count("accepted_with_small_order_key_and_R", n_acc_small);
-    ctx.nontriv(ctx.evaluations.load(std::sync::atomic::Ordering::Relaxed));
     ctx.sample_tag("verify", json!({"key": "T4 (0,-1)", "R": "T0", "S": "0", "note": "small-order key and R with manufactured message: accepted by verify, rejected by verify_strict"}));
 }
 
